@@ -373,7 +373,7 @@ def check_C17(tier):
         for q in c["qs"][:4]:
             ops.append(["cop", 1, (q["B"], q["A"])])
             ops.append(["accept", 1, (q["B"], q["A"])])
-        if len(scen) % 2 == 0:
+        if len(scen) % 2 == 0 and len(sc["base"]) <= 3:  # (a duplicated conditional can make it 4: TLC's Pareto filter over the box is quadratic)
             ops.append(["front", 1, 60])
         sc["ops"] = ops
         if len(scen) % 5 in (1, 3) and len(sc["base"]) >= 2:  # keys other than 1..n in insertion order (the base is the same base)
